@@ -1539,9 +1539,17 @@ class StateEngine(object):
 
                             """
                             Tidy up self.branch_metadata for current execution_arn
-                            before republishing the Task state event.
+                            before republishing the state event. This is only
+                            needed when the state being retried is itself a Map
+                            or Parallel state whose failed attempt left results
+                            behind. It must not be done for e.g. a Task state
+                            retried *inside* a Branch or Iteration, as that would
+                            acknowledge the held events and discard the results
+                            already collected for the enclosing Map/Parallel
+                            state, which could then never complete its join.
                             """
-                            if execution_arn in self.branch_metadata:
+                            if (execution_arn in self.branch_metadata and
+                                (state_type == "Map" or state_type == "Parallel")):
                                 self.check_pending_results(execution_arn)
 
                             """
